@@ -159,14 +159,22 @@ def build_pm_plane(load, place, spring="force", seed=0, stiff="stiff"):
     with quiet():
         system = System()
         r0 = c + A @ np.array([0.1, -0.2, h0 + R])
-        pm = PointMass(1.0, q0=r0, name="pm")
+        moving = spring.endswith("_u0")
+        # "..._u0": the system carries NON-ZERO initial velocities and velocity-dependent (damper) forces; a static solve has to
+        # ignore them (equilibrium is defined with u = 0)
+        pm = PointMass(1.0, q0=r0, u0=(A @ np.array([0.7, -0.4, 0.3]) if moving else np.zeros(3)), name="pm")
         plane = Frame(r_OP=c, A_IB=A, name="plane")
         system.add(pm, plane)
         # three non-collinear springs (undeformed at the initial position) give a regular stiffness
         for k, (d, kk) in enumerate(zip([(0.0, 0.0, 1.0), (0.9, 0.1, 0.3), (-0.2, 1.1, 0.2)], PM_STIFF[stiff])):
             anchor = Frame(r_OP=r0 + A @ np.array(d), A_IB=A, name=f"anchor{k}")
             tpi = TwoPointInteraction(anchor, pm, name=f"tpi{k}")
-            sp = Spring(tpi, kk, l_ref=float(np.linalg.norm(d)), compliance_form=(spring == "compliance"), name=f"spring{k}")
+            if spring.startswith("kelvin_voigt"):
+                from cardillo.force_laws import KelvinVoigtElement
+
+                sp = KelvinVoigtElement(tpi, kk, 0.3 * kk, l_ref=float(np.linalg.norm(d)), compliance_form=(k == 1), name=f"spring{k}")
+            else:
+                sp = Spring(tpi, kk, l_ref=float(np.linalg.norm(d)), compliance_form=(spring == "compliance"), name=f"spring{k}")
             system.add(anchor, tpi, sp)
         con = Sphere2Plane(plane, pm, mu=0.0, r=R, name="contact")
         system.add(con, Force(lambda t: f0 + t * (f1 - f0), pm, name="load"))
